@@ -247,3 +247,89 @@ pub fn real_ticker_scenario(flavor: Flavor, seed: u64, rep: &mut Report) {
         Sup::Panicked => rep.count("scenarios_ended_by_panic"),
     }
 }
+
+// ---------------------------------------------------------------------------------------------
+// C17: ratio() and the hit/miss counters over windows that contain only hits, only misses, nothing
+// (the lockstep probe looks every key of the universe up after every step, so its windows always
+// contain misses)
+// ---------------------------------------------------------------------------------------------
+
+pub fn ratio_scenario(flavor: Flavor, seed: u64, rep: &mut Report) {
+    let sup = supervised("ratio", Duration::from_secs(120), move || {
+        let mut local = Report::default();
+        let mut rng = Rng::new(seed);
+        stretto::verif::reset();
+        val::log_enable(false);
+        let _ = val::take_log();
+        val::VLD_MODE.store(0, std::sync::atomic::Ordering::SeqCst);
+        clock::set(1_700_000_000_000_000_000u64);
+        let cfg = Cfg { max_cost: 1 << 30, buffer_items: *rng.pick(&[1usize, 3, 64]), ..Cfg::default() };
+        let d = build(flavor, &cfg).expect("build");
+        let nkeys = rng.range(1, 6);
+        let mut windows = 0u64;
+        for round in 0..rng.range(3, 8) {
+            let desc = json!({"scenario": "hit/miss windows", "flavor": flavor.name(), "seed": seed, "round": round});
+            for k in 0..nkeys {
+                let _ = d.try_insert(k, Tracked::new(seed << 16 | round << 8 | k, k), 1, Duration::ZERO);
+            }
+            if crate::driver::wait_retry(&*d, Duration::from_secs(60)).is_err() {
+                break;
+            }
+            let m0 = d.metrics().unwrap_or([0; 11]);
+            let r0 = d.ratio();
+            let want0 = if m0[0] + m0[1] == 0 { 0.0 } else { m0[0] as f64 / (m0[0] + m0[1]) as f64 };
+            if let Some(r) = r0 {
+                if (r - want0).abs() > 1e-12 {
+                    local.violate("C17", "metrics/ratio", format!("ratio() = {r} with hits {} and misses {} (expected {want0})", m0[0], m0[1]), desc.clone());
+                }
+            }
+            // a window of (possibly zero) hits, then of (possibly zero) misses, checked after each part
+            let hits = *rng.pick(&[0u64, 1, 2, 5, 17]);
+            let misses = *rng.pick(&[0u64, 0, 1, 3, 9]);
+            let mut made_hits = 0u64;
+            for i in 0..hits {
+                if d.get(i % nkeys).is_some() {
+                    made_hits += 1;
+                }
+            }
+            let made_misses_in_hits = hits - made_hits;
+            let check = |what: &str, h: u64, m: u64, local: &mut Report| {
+                let got = d.metrics().unwrap_or([0; 11]);
+                let want_r = if h + m == 0 { 0.0 } else { h as f64 / (h + m) as f64 };
+                local.count("c17_ratio_windows_checked");
+                if got[0] != h || got[1] != m {
+                    local.violate("C17", "metrics/hits-plus-misses", format!("{what}: hits {} misses {}, the look-ups made since the last clear were {h} hits and {m} misses", got[0], got[1]), desc.clone());
+                }
+                match d.ratio() {
+                    Some(r) if (r - want_r).abs() > 1e-12 => local.violate("C17", "metrics/ratio", format!("{what}: ratio() = {r}, hits {h} / (hits {h} + misses {m}) = {want_r}"), desc.clone()),
+                    None => local.violate("C17", "metrics/ratio", format!("{what}: ratio() = None with metrics enabled"), desc.clone()),
+                    _ => {}
+                }
+            };
+            check("after the hits", m0[0] + made_hits, m0[1] + made_misses_in_hits, &mut local);
+            for i in 0..misses {
+                let _ = d.get(1000 + i);
+            }
+            check("after the misses", m0[0] + made_hits, m0[1] + made_misses_in_hits + misses, &mut local);
+            windows += 1;
+            if rng.chance(2, 3) {
+                if d.clear().is_err() {
+                    break;
+                }
+                let _ = crate::driver::wait_retry(&*d, Duration::from_secs(60));
+                check("right after clear()", 0, 0, &mut local);
+            }
+        }
+        local.add("c17_ratio_scenarios", 1);
+        local.add("c17_ratio_rounds", windows);
+        let _ = d.close();
+        drop(d);
+        local
+    });
+    match sup {
+        Sup::Done(l) => rep.merge(l),
+        Sup::Hang(d) => rep.violate("C17", "ratio/hang", "ratio scenario never finished".into(), d),
+        Sup::Timeout(d) => rep.inconclusive(format!("ratio scenario: watchdog: {d}")),
+        Sup::Panicked => rep.count("scenarios_ended_by_panic"),
+    }
+}
